@@ -865,6 +865,12 @@ impl Check for LspCheck {
     fn unit_cpu_budget_s(&self) -> f64 {
         900.0
     }
+    fn sanitizer_steps(&self, seed: u64, agg: &mut Agg) {
+        // a spread of the quick units (exhaustive short histories, bursts, random sessions) again on a
+        // ThreadSanitizer build of this binary: the server's main loop, its snapshot tasks and the client side
+        // of the driver run as real threads
+        crate::sanit::tsan(self.id(), seed, &[0, 1, 2, 17, 40, 63, 95], agg);
+    }
     fn technique(&self) -> &'static str {
         match self.mode {
             LMode::Locations => "differential monitor at the JSON-RPC boundary: server answers vs ide-level results converted by an independent position mapper",
